@@ -19,3 +19,7 @@ CLAIMED["C11"] = {"technique": _TECH,
 CLAIMED["C15"] = {"technique": _TECH,
     "text": "Proved for all inputs: block header (de)serialisation round trip; coinbase input (null outpoint, minimal BIP34 height push for every height < 2^32, 100-byte limit); coinbase transaction (exact default subsidy on both halving schedules, reward cap, BIP141 commitment output and reserved-value witness exactly when a root is given); merkle_root never raises, terminates and returns a hash for every list length. Bounded (not proved): merkle_root == spec merkle for every list length 1..300. Not covered: the block_deser/block_ser round trip (depends on tx_deser, C04/C05).",
     "note": _NOTE + " Heights are restricted to [0, 2^32); an explicit block_reward of 0 is treated by the code as 'not given' and is excluded by the contract's precondition."}
+
+CLAIMED["C13"] = {"technique": _TECH,
+    "text": "Proved for all inputs: a data item of any length 1..2^32-1 is pushed with the shortest push and an exact little-endian length, disassembles to itself and re-assembles to the same bytes; every defined non-push opcode name assembles to one byte and disassembles to the same operation (all names, finite); pushes and opcodes do not interfere (two-item combinations); witness stacks of 0..3 items with items of any length use CompactSize count and lengths and round-trip with arbitrary trailing bytes; every standard-template builder disassembles to exactly the intended opcodes and pushes for all argument sizes the template allows (multisig for n in {1,2,3,15,16}, every m). Not proved: the n-ary composition for item lists of unbounded length (needs an invariant over lists of strings).",
+    "note": _NOTE + " Opcode numbers are compared with a table transcribed from Bitcoin Core's script.h for the opcodes the templates use."}
